@@ -123,6 +123,9 @@ def gen_op(rng, pool, weights=None):
             return ["generate", cc, bank + "9" * 12, acct, branch], None
         return ["generate", cc, bank, acct, branch], None
     if fam == "random":
+        if pool.get("retry_cases") and rng.random() < 0.2:
+            cc, seed, use_registry, pinned = _pick(rng, pool["retry_cases"])  # an internal attempt fails and is retried
+            return ["iban_random" if rng.random() < 0.7 else "bban_random", cc, seed, use_registry, pinned], None
         if rng.random() < 0.5:
             cc, seed, use_registry, pinned = _pick(rng, pool["random_cases"])
         else:
